@@ -7,6 +7,7 @@ package interp
 
 import (
 	"fmt"
+	"go/token"
 	"go/types"
 	"math"
 	"strings"
@@ -42,6 +43,22 @@ func (i *interpreter) lookupExternal(fn *ssa.Function) externalFn {
 }
 
 var externals2 map[string]externalFn
+
+// symxFunc returns the SSA function verif/symx.<name> of the loaded program (nil if absent).
+func (i *interpreter) symxFunc(name string) *ssa.Function {
+	if i.symxPkg == nil {
+		for _, p := range i.prog.AllPackages() {
+			if p.Pkg.Path() == "verif/symx" {
+				i.symxPkg = p
+				break
+			}
+		}
+		if i.symxPkg == nil {
+			return nil
+		}
+	}
+	return i.symxPkg.Func(name)
+}
 
 func goStr(v value) string {
 	switch s := v.(type) {
@@ -185,16 +202,30 @@ func init() {
 		"os/signal.Notify":                          func(fr *frame, a []value) value { return nil },
 		"os.Getenv":                                 func(fr *frame, a []value) value { return "" },
 		"os.LookupEnv":                              func(fr *frame, a []value) value { return tuple{"", false} },
+		// os.Stat / Lstat / ReadFile / ReadDir: redirected to the harness-side virtual file system
+		// (verif/symx/vfs.go, ordinary Go executed by the engine); without it: an empty file system
 		"os.Stat": func(fr *frame, a []value) value {
+			if fn := fr.i.symxFunc("VfsStat"); fn != nil {
+				return call(fr.i, fr, token.NoPos, fn, []value{a[0]})
+			}
 			return tuple{iface{}, fr.i.newError(fr, "stat "+goStr(a[0])+": no such file or directory (engine: empty file system)")}
 		},
 		"os.Lstat": func(fr *frame, a []value) value {
+			if fn := fr.i.symxFunc("VfsStat"); fn != nil {
+				return call(fr.i, fr, token.NoPos, fn, []value{a[0]})
+			}
 			return tuple{iface{}, fr.i.newError(fr, "lstat "+goStr(a[0])+": no such file or directory (engine: empty file system)")}
 		},
 		"os.ReadFile": func(fr *frame, a []value) value {
+			if fn := fr.i.symxFunc("VfsReadFile"); fn != nil {
+				return call(fr.i, fr, token.NoPos, fn, []value{a[0]})
+			}
 			return tuple{[]value(nil), fr.i.newError(fr, "open "+goStr(a[0])+": no such file or directory (engine: empty file system)")}
 		},
 		"os.ReadDir": func(fr *frame, a []value) value {
+			if fn := fr.i.symxFunc("VfsReadDir"); fn != nil {
+				return call(fr.i, fr, token.NoPos, fn, []value{a[0]})
+			}
 			return tuple{[]value(nil), fr.i.newError(fr, "open "+goStr(a[0])+": no such file or directory (engine: empty file system)")}
 		},
 		"os.Open": func(fr *frame, a []value) value {
